@@ -196,3 +196,8 @@ impl<T: Into<J>> From<Option<T>> for J {
         }
     }
 }
+impl From<u8> for J {
+    fn from(v: u8) -> J {
+        J::Int(v as i64)
+    }
+}
